@@ -107,7 +107,8 @@ pub fn random_rq(rng: &mut StdRng) -> RqCfg {
     let method = methods[rng.gen_range(0..9)];
     let body_m = matches!(method, "POST" | "PUT" | "PATCH");
     let ver10 = matches!(method, "GET" | "HEAD" | "POST") && rng.gen_bool(0.3);
-    let despite = !body_m && rng.gen_bool(0.3);
+    // (on a method that takes a body anyway the call is a no-op)
+    let despite = if body_m { rng.gen_bool(0.15) } else { rng.gen_bool(0.3) };
     // now and then a request that is refused at the first write (framing headers on a method that takes no body)
     let framing = if body_m || despite || rng.gen_bool(0.08) { ["default", "cl0", "cl2", "chunked"][rng.gen_range(0..4)] } else { "default" };
     RqCfg {
